@@ -13,7 +13,7 @@
 #define VERIF_PRIMS_H
 #include <stddef.h>
 
-typedef struct Mutex { int depth; } Mutex;
+typedef struct Mutex { int depth; int kind; } Mutex;    /* kind (ghost): which mutex of its owner this is, set by the unit spec */
 typedef struct Callback { int id; } Callback;
 
 /* exception mode: a may-throw primitive sets g_exc nondeterministically; the extractor emits the
@@ -41,8 +41,17 @@ static inline void mutex_unlock_(Mutex *m)
   m->depth = 0;
 }
 #define MUTEX_LOCK(m)   mutex_lock_(m)
+#ifndef MUTEX_UNLOCK
 #define MUTEX_UNLOCK(m) mutex_unlock_(m)
+#endif
 #define MUTEX_INIT(m)   ((m)->depth = 0)
+#ifndef MUTEX_MEMBER_INIT
+#define MUTEX_MEMBER_INIT(m, s, name) MUTEX_INIT(m)
+#endif
+/* interference point: an unlocked read of shared state; other threads may run here (concurrent mode only) */
+#ifndef INTERFERE_POINT
+#define INTERFERE_POINT(s) ((void)0)
+#endif
 
 #define ATOMIC_LOAD(p)        (*(p))
 #define ATOMIC_STORE(p, v)    (*(p) = (v))
